@@ -196,6 +196,11 @@ def r2(ctx, vfns):
             ctx.check(good, 'R2', 'is_synced', cl,
                       'is_synced = max(announced_max.unwrap_or(0), height) <= height + SYNCED_THRESHOLD(2)',
                       'is_synced computes %s' % why)
+    # the `height` the sync gate compares announced headers with is the best chain's (heaviest, not
+    # longest) tip height (shared with C02.R6)
+    from sa.engine import SubCtx
+    from rules import c02
+    c02.r5_r6(SubCtx(ctx, {'R6': 'R2'}))
 
 
 def r4(ctx):
